@@ -17,6 +17,7 @@ def contracts_hash():
 
 def main():
     only = [a for a in sys.argv[1:] if not a.startswith("--")]
+    if "--closure-only" in sys.argv: only = ["\x00no-such-label\x00"]      # recompute closures from the recorded direct dependents
     work = tempfile.mkdtemp(prefix="ldeps_")
     unit = os.path.join(work, "all.rs")
     text, lines_meta, ctx = runner.build_unit("/repo/src", unit)
@@ -72,7 +73,11 @@ def main():
         for n, (key, label, deps) in enumerate(ex.map(one, clauses)):
             out["%s#%s" % (key, label)] = {"dependents": deps}
             if n % 20 == 0: print(n, key[-60:], label, (len(deps) if deps is not None else "ERR"), file=sys.stderr)
-    # closure over labelled dependents
+    path = os.path.join(VERIF, "label_deps.json")
+    prev = json.load(open(path)) if os.path.exists(path) else {}
+    if only and prev:
+        oc = {k: {"dependents": v.get("dependents")} for k, v in prev.get("clauses", {}).items()}; oc.update(out); out = oc
+    # closure over labelled dependents (always over the whole table)
     by_label = {}
     for k in out: by_label.setdefault(k.split("#", 1)[1], []).append(k)
     def props_of(name):
@@ -82,18 +87,25 @@ def main():
         # body-level obligation of a function: its safety tags
         fk = name.split(".body.")[0]
         return set(fns_by_key.get(fk, {}).get("safety", []))
+    by_fn = {}
+    for k in out: by_fn.setdefault(k.split("#", 1)[0], []).append(k)
+    def expand(o):
+        """obligations that become unproven when obligation o is unproven: for a labelled clause its recorded dependents; for a body-level
+        failure of function f (a loop invariant, an assertion, a callee precondition) every clause of f - its body proof is what carries them"""
+        res = []
+        for kk in by_label.get(o, []): res += (out[kk]["dependents"] or [])
+        if ".body." in o:
+            fk = o.split(".body.")[0]
+            for kk in by_fn.get(fk, []): res.append(kk.split("#", 1)[1]); res += (out[kk]["dependents"] or [])
+        return res
     for k, v in out.items():
         seen = set(); todo = list(v["dependents"] or []); props = props_of(k.split("#", 1)[1])
         while todo:
             o = todo.pop()
             if o in seen: continue
             seen.add(o); props |= props_of(o)
-            for kk in by_label.get(o, []): todo += (out[kk]["dependents"] or [])
+            todo += expand(o)
         v["closure"] = sorted(seen); v["props"] = sorted(props)
-    path = os.path.join(VERIF, "label_deps.json")
-    prev = json.load(open(path)) if os.path.exists(path) else {}
-    if only and prev:
-        oc = prev.get("clauses", {}); oc.update(out); out = oc
     # ---- phase 2: defining axioms.  A repo function that is verified AGAINST a defining axiom (AsRef::as_ref against ax_asref_*,
     # Serialize::serialize against ax_json_*) has no labelled clause of its own; what rests on it is what rests on the axiom.
     fn_body_props = dict(prev.get("fn_body_props", {})); axioms = dict(prev.get("axioms", {}))
@@ -128,7 +140,7 @@ def main():
                     o = todo.pop()
                     if o in seen: continue
                     seen.add(o); props |= props_of(o)
-                    for kk in by_label.get(o, []): todo += (out[kk]["dependents"] or [])
+                    todo += expand(o)
                 axioms[name] = {"definers": definers, "dependents": deps, "props": sorted(props)}
                 for d in definers: fn_body_props[d] = sorted(set(fn_body_props.get(d, [])) | props)
                 print(name, definers, sorted(props), file=sys.stderr)
